@@ -103,12 +103,21 @@ class Hub:
             heapq.heappush(self.timers, ent)
         return self.main.switch()
 
-    def yield_point(self):
-        """A schedule point that does not block (L2 only)."""
-        if self.preempt and self.current is not None and self.rng.random() < 0.35:
-            t = self.current
-            self.ready.append((t, None))
-            self.main.switch()
+    def yield_point(self, hold=False):
+        """A schedule point that does not block (L2 only).  hold: with probability 1/4 the task
+        is not only switched out but held back until every other task is blocked or finished -
+        the schedule in which a thread is descheduled for long at exactly this point."""
+        if self.preempt and self.current is not None:
+            r = self.rng.random()
+            if hold and r < 0.25:
+                t = self.current
+                t.held = True
+                self.ready.append((t, None))
+                self.main.switch()
+            elif r < 0.35 + (0.25 if hold else 0.0):
+                t = self.current
+                self.ready.append((t, None))
+                self.main.switch()
 
     def yield_now(self):
         """Unconditional schedule point (for harness-side tasks that poll for a condition)."""
@@ -120,10 +129,16 @@ class Hub:
         """Run until no task is runnable (quiescence)."""
         while self.ready:
             if self.preempt and len(self.ready) > 1:
-                i = self.rng.randrange(len(self.ready))
+                free = [k for k, (t, _) in enumerate(self.ready) if not getattr(t, 'held', False)]
+                if not free:
+                    for t, _ in self.ready:
+                        t.held = False          # everybody else is blocked: release
+                    free = list(range(len(self.ready)))
+                i = free[self.rng.randrange(len(free))]
                 task, val = self.ready.pop(i)
             else:
                 task, val = self.ready.pop(0)
+                task.held = False
             if task.done:
                 continue
             self.current = task
@@ -248,7 +263,7 @@ class Queue:
         # the call of put() is a switch point of its own (CPython switches threads at calls):
         # what the caller wrote to shared flags just before is visible before the item is
         self._log('put_enter', item)
-        _hub.yield_point()
+        _hub.yield_point(hold=True)
         self.items.append(item)
         self.unfinished_tasks += 1
         self._log('put', item)
